@@ -3,11 +3,13 @@ package props
 import (
 	"bytes"
 	"fmt"
+	"hash/fnv"
 	"os"
 	"os/exec"
 	"regexp"
 	"runtime"
 	"sort"
+	"strconv"
 	"strings"
 	"sync"
 
@@ -377,6 +379,7 @@ func c04Families(tier string) []explore.Family {
 		first := true
 		outcomes := map[string]bool{}
 		var syncPoints int64
+		sched.Deadline = explore.WorkerDeadline
 		execs, truncated := sched.ExploreShard(func() []func(s *sched.S) {
 			b := mk()
 			// the scheduler object is created inside Execute; route Point calls through it
@@ -395,7 +398,9 @@ func c04Families(tier string) []explore.Family {
 			for _, c := range run.Choices {
 				fmt.Fprintf(&sb, "%d", c)
 			}
-			r.State(sc.name + ":" + sb.String())
+			h := fnv.New64a() // (a state = one schedule; millions of them: keep 8 bytes each, not the choice string)
+			h.Write([]byte(sc.name + ":" + sb.String()))
+			r.State(strconv.FormatUint(h.Sum64(), 36))
 			desc := func() any {
 				var labels []string
 				for k, p := range run.Points {
@@ -468,7 +473,7 @@ func c04Families(tier string) []explore.Family {
 			r.Class(fmt.Sprintf("%s/outcomes=%d", strings.SplitN(sc.name, ":", 2)[0], len(outcomes)))
 		}
 		if truncated {
-			r.Incomplete = append(r.Incomplete, fmt.Sprintf("schedules of %s capped at %d", sc.name, maxExec))
+			r.Incomplete = append(r.Incomplete, fmt.Sprintf("schedules of %s capped (at %d executions or at the wall-clock budget): %d explored in this shard", sc.name, maxExec, execs))
 		}
 		if r.WantSample() && shard == 0 {
 			r.Sample(map[string]any{"scenario": sc.name, "schedules_in_shard_0_of_16": execs, "preemption_bound": bound, "instrumented_template": w.src[sc.scripts[0][0].t]})
